@@ -137,6 +137,16 @@ func NewModel(s *Spec) *Model {
 			ri.Reject = "name+group"
 			continue
 		}
+		if ri.Meta != nil && ri.Meta.ResultObj {
+			for _, o := range outs {
+				if o.Key != "" && o.Group != "" {
+					ri.Reject = "out-name+group"
+				}
+			}
+			if ri.Reject != "" {
+				continue
+			}
+		}
 		if ri.Void {
 			continue
 		}
